@@ -33,11 +33,12 @@ Ops ==
     [op |-> "set_index", keys |-> <<A>>, drop |-> TRUE, append |-> FALSE],
     [op |-> "set_index", keys |-> <<B, A>>, drop |-> TRUE, append |-> FALSE],
     [op |-> "set_index", keys |-> <<C>>, drop |-> FALSE, append |-> TRUE],
+    [op |-> "set_index", keys |-> <<B, A>>, drop |-> TRUE, append |-> TRUE],      \* three levels from Schema1: a partial reset keeps two
     [op |-> "set_index", keys |-> <<Q>>, drop |-> TRUE, append |-> FALSE],
     [op |-> "reset_index", keys |-> <<>>, drop |-> FALSE], [op |-> "reset_index", keys |-> <<A>>, drop |-> FALSE],
     [op |-> "reset_index", keys |-> <<>>, drop |-> TRUE] }
 (* UpdateColumnsLosesDropInvalidRows was repaired in the repository (see known_findings.json, fixed) *)
-ShippedDev == {"SetResetIndexLosesAttributes"}
+ShippedDev == {"SetResetIndexLosesAttributes", "ResetIndexDuplicateLevelNamesKeyError"}
 
 VARIABLES sch0, sch, shp, hist, trail, strail   \* initial, design and as-shipped schema, operations, predictions
 vars == <<sch0, sch, shp, hist, trail, strail>>
@@ -78,5 +79,8 @@ ASSUME PrintT(ToJson([kind |-> "header", strtable |-> StrTable, retable |-> ReTa
 Emit == Len(hist) = MaxOps =>
    PrintT(ToJson([kind |-> "schemaops", init |-> sch0,
                   hist |-> hist, expect |-> trail, asis |-> strail,
-                  devs |-> IF trail # strail THEN ShippedDev ELSE {}]))
+                  devs |-> IF trail # strail
+                           THEN (IF \E i \in 1..Len(strail) : IsErr(strail[i]) /\ strail[i].error = "Leak:KeyError"
+                                 THEN ShippedDev ELSE {"SetResetIndexLosesAttributes"})
+                           ELSE {}]))
 =============================================================================
